@@ -19,7 +19,8 @@ for name in sorted(d for d in os.listdir(f"{V}/seeded") if os.path.isdir(f"{V}/s
         if any(r["exit"] == 1 and r["violation_lines"] for r in res.values()):
             any_hit += 1
     note = meta.get("note", "")
-    rows.append(f"| {name} | {meta.get('needs_to_manifest','').replace('|','\\|')} | {det}{(' — ' + note) if note else ''} |")
+    needs = meta.get("needs_to_manifest", "").replace("|", "&#124;")
+    rows.append("| " + name + " | " + needs + " | " + det + ((" — " + note) if note else "") + " |")
 text = f"""Seeded changes were written by fresh sub-agents that saw only the text of one property and a
 scratch worktree of /repo (nothing from /verif). Each was confirmed in a scratch worktree of the
 then-current HEAD (patch applies, 135 tests pass with it, its demonstration passes without and
